@@ -24,8 +24,10 @@ def txt (b : Bytes) : String := String.ofList (b.map (fun x => Char.ofNat x.toNa
 def putU32 (n : Nat) : Bytes :=
   [UInt8.ofNat (n / 16777216), UInt8.ofNat (n / 65536), UInt8.ofNat (n / 256), UInt8.ofNat n]
 
+/- literals are written on the LEFT of `*`: `Nat.mul` recurses on its second argument, and a
+   symbolic `x * 16777216` makes `whnf` (simp's matcher reduction) unfold sixteen million steps. -/
 def parseU32 : Bytes → Option (Nat × Bytes)
-  | a :: b :: c :: d :: r => some (a.toNat * 16777216 + b.toNat * 65536 + c.toNat * 256 + d.toNat, r)
+  | a :: b :: c :: d :: r => some (16777216 * a.toNat + 65536 * b.toNat + 256 * c.toNat + d.toNat, r)
   | _ => none
 
 def putU64 (n : Nat) : Bytes := putU32 (n / 4294967296) ++ putU32 n
@@ -36,7 +38,7 @@ def parseU64 (b : Bytes) : Option (Nat × Bytes) :=
   | some (hi, r) =>
     match parseU32 r with
     | none => none
-    | some (lo, r') => some (hi * 4294967296 + lo, r')
+    | some (lo, r') => some (4294967296 * hi + lo, r')
 
 /-! ## strings -/
 
